@@ -6,7 +6,7 @@ CONSTANTS
   MaxSched = 2
   OutBatch = 2
   MatchRel <- MCMatch
-  RFix = {"ready_unknown", "unsuback_one", "unsub_notifs"}
+  RFix = {"ready_unknown", "unsuback_one", "unsub_notifs", "resume_submap"}
   CIDs = {"c1", "c2"}
   Topics <- MCTopics
   Filters <- MCFilters
